@@ -20,7 +20,8 @@ PID = "C12"
 THEOREMS = ["dense_spec", "dense_value", "dense_shape", "dense_eq_spec", "sparse_eq_spec", "sparse_spec",
             "sparse_ok", "pixels_eq_spec", "pixels_spec", "pixels_ok", "dump_spec", "bias_alias_sound",
             "biases_eq_noAlias", "biases_fst_get", "biases_snd_get", "missing_column_error",
-            "cooler_missing_column_error", "dump_missing_error", "divisive_default_iff", "divisive_explicit"]
+            "cooler_missing_column_error", "dump_missing_error", "divisive_default_iff", "divisive_explicit",
+            "dense_contract", "sparse_contract", "pixels_contract", "dump_contract", "cellOk_factors"]
 LEVELS = {"matrix": "top", "dump": "top", "constants": "unit", "arith": "unit"}
 DESCRIBE = {
     "matrix": "Cooler.matrix(balance=b, divisive_weights=d, sparse/as_pixels)[i0:i1, j0:j1] for EVERY window of one "
@@ -48,6 +49,11 @@ ASSUMPTIONS = ["weight columns are float64 vectors with one entry per bin (as co
                "the balance argument is False, True or a non-empty column name (balance='' is Python-falsy and reads unbalanced)",
                "stored integer values below 2^63 in magnitude"]
 CHUNK = 1
+# The property fixes the three factors of every value, not the bracketing of their product.  A result
+# whose values are another bracketing of the same three factors (each cell bit-equal to one of Lean
+# `products3`) meets the property: it is counted (`bracketing_differs` in the evidence) and does not
+# gate.  Set to True to make the exact bracketing of today's code gating as well.
+STRICT_ASSOCIATION = False
 
 NAMES = ["weight", "KR", "VC", "VC_SQRT", "wt2"]
 BINSIZE = 10
@@ -203,7 +209,7 @@ def _matrix(case):
     p = _build(case, "m")
     bins = _bins(case)
     binid = {(gen.chromname(b[0]), b[1]): k for k, b in enumerate(bins)}
-    stats = {"windows": 0, "comparisons": 0, "raw_query_errors": 0, "error_outcomes": 0}
+    stats = {"windows": 0, "comparisons": 0, "raw_query_errors": 0, "error_outcomes": 0, "bracketing_differs": 0}
     mism = []
     try:
         clr = cooler.Cooler(p)
@@ -256,20 +262,37 @@ def _matrix(case):
                         w_val = (sorted([r[:3] + [v] for r, v in zip(rawP[1], want[1])],
                                         key=lambda r: (r[0], r[1], str(r[2]), str(r[3]))) if want[0] == "ok" else None)
                     stats["comparisons"] += 1
+                    rawkey = {"dense": rawD, "sparse": rawS, "pixels": rawP}[key][1]
+                    verdict = "ok"
+                    if want[0] == "raw":
+                        continue
                     if want[0] == "err":
                         # the property promises *an error*, not its class or message
                         stats["error_outcomes"] += 1
-                        okay = got[0] == "err"
-                    elif want[0] == "raw":
-                        continue
+                        if got[0] != "err":
+                            verdict = "no error for a missing weight column"
+                    elif got[0] != "ok":
+                        verdict = "raised"
                     else:
-                        okay = got[0] == "ok" and got[1] == w_val
-                    if not okay:
+                        strict = got[1] == w_val
+                        sample = (i0 + 2 * i1 + 3 * j0 + 5 * j1 + k) % 7 == 0
+                        if not strict or sample:
+                            holds = _contract(key, got[1], rawkey, cols, [bal, dw], w, rawfloat)
+                            if strict and holds is not True:
+                                raise AssertionError(f"model output rejected by the contract (theorems *_contract): "
+                                                     f"{key} {w} {bal} {dw} {got[1]}")
+                            if not strict:
+                                stats["bracketing_differs"] += 1
+                                if holds is not True or STRICT_ASSOCIATION:
+                                    verdict = "wrong value" if holds is not True else "bracketing differs (STRICT_ASSOCIATION)"
+                    if verdict != "ok":
                         mism.append({"win": w, "balance": bal, "divisive_weights": dw, "form": form, "config_index": k,
+                                     "verdict": verdict,
                                      "impl": got[1] if got[0] == "ok" else {"raised": got[1]},
                                      "model": w_val if want[0] == "ok" else {"error": want[1]},
-                                     "raw": {"dense": rawD, "sparse": rawS, "pixels": rawP}[key][1]})
-                        if len(mism) >= 3:
+                                     "raw": rawkey})
+                        nvalue = sum(1 for m_ in mism if m_["verdict"] == "wrong value")
+                        if (nvalue >= 1 and len(mism) >= 3) or len(mism) >= 30:
                             raise _Stop()
     except _Stop:
         pass
@@ -277,12 +300,33 @@ def _matrix(case):
         if os.path.exists(p):
             os.unlink(p)
     if mism:
-        return {"mismatch": True, "first": mism[0], "more": mism[1:], "n_reported": len(mism)}
+        # a wrong value makes a clearer replay than an exception: report it first
+        mism.sort(key=lambda m_: m_["verdict"] != "wrong value")
+        return {"mismatch": True, "first": mism[0], "more": mism[1:3], "n_reported": len(mism)}
     return {"stats": stats}
 
 
 class _Stop(Exception):
     pass
+
+
+def _contract(key, got, raw, cols, config, w, rawfloat):
+    """the property's contract (Lean denseOk / sparseOk / pixelsOk) on the implementation's result;
+    True / False, or False when the result does not even have the raw result's rows"""
+    if key == "dense":
+        if not isinstance(got, list):
+            return False
+        return drv().ask("C12.contract", form="dense", cols=cols, config=config, win=w, raw=raw, out=got,
+                         rawfloat=rawfloat)["holds"]
+    if key == "sparse":
+        rs = sorted(raw, key=lambda r: (r[0], r[1], str(r[2])))
+        return drv().ask("C12.contract", form="sparse", cols=cols, config=config, win=w, raw=rs, out=got,
+                         rawfloat=rawfloat)["holds"]
+    rs = sorted([r[:3] for r in raw], key=lambda r: (r[0], r[1], str(r[2])))
+    if [g[:3] for g in got] != rs or any(g[3] is None for g in got):
+        return False
+    return drv().ask("C12.contract", form="pixels", cols=cols, config=config, raw=rs, out=[g[3] for g in got],
+                     rawfloat=rawfloat)["holds"]
 
 
 # ------------------------------------------------------------------------------------------------
@@ -326,7 +370,7 @@ def _dump(case):
     bins = _bins(case)
     binid = {(gen.chromname(b[0]), b[1]): k for k, b in enumerate(bins)}
     cols = case["weights"]
-    stats = {"dumps": 0, "rows": 0, "missing_weight": 0}
+    stats = {"dumps": 0, "rows": 0, "missing_weight": 0, "bracketing_differs": 0}
     only = case.get("only")
     try:
         regs = _regions(case)
@@ -374,8 +418,18 @@ def _dump(case):
                 got = sorted(_parse_dump(bal.stdout, joined, binid, True))
                 want = sorted(r + [v] for r, v in zip(rawrows, m["model"]["ok"]))
                 stats["rows"] += len(want)
-                if got != want:
-                    return {"mismatch": True, "regions": [r1, r2], "flags": flags, "impl": got, "model": want}
+                differs = got != want
+                if differs or stats["dumps"] % 5 == 0:
+                    rs = sorted(rawrows)
+                    holds = ([g[:3] for g in got] == rs and
+                             drv().ask("C12.dump_contract", cols=cols, raw=rs, out=[g[3] for g in got])["holds"] is True)
+                    if not differs:
+                        assert holds, f"model output rejected by the contract (theorem dump_contract): {got}"
+                    else:
+                        stats["bracketing_differs"] += 1
+                        if not holds or STRICT_ASSOCIATION:
+                            return {"mismatch": True, "regions": [r1, r2], "flags": flags, "impl": got, "model": want,
+                                    "verdict": "wrong value" if not holds else "bracketing differs (STRICT_ASSOCIATION)"}
     finally:
         if os.path.exists(p):
             os.unlink(p)
@@ -509,14 +563,14 @@ def cases(tier, rng):
     yield "dump", corpus
     nconf = 6 if thorough else 4
     if thorough:
-        plan = [(7, 40), (6, 40), (5, 40), (4, 30), (3, 20), (2, 10), (1, 4)]
+        plan = [(7, 24), (6, 30), (5, 30), (4, 24), (3, 16), (2, 8), (1, 3)]
     else:
-        plan = [(5, 12), (4, 12), (3, 12), (2, 8), (1, 3)]
+        plan = [(5, 8), (4, 10), (3, 12), (2, 8), (1, 3)]
     # largest first so that the long cases do not form the tail of the pool
     for n, count in plan:
         for _ in range(count):
             yield "matrix", _case(rng, n, nconf)
-    for n, count in ([(7, 6), (6, 8), (5, 10), (4, 10), (3, 8), (2, 4)] if thorough else [(5, 4), (4, 4), (3, 4), (2, 2)]):
+    for n, count in ([(7, 6), (6, 8), (5, 10), (4, 10), (3, 8), (2, 4)] if thorough else [(5, 3), (4, 4), (3, 4), (2, 2)]):
         for _ in range(count):
             c = _case(rng, n, 1)
             c["field"] = "count"
